@@ -56,9 +56,40 @@ def replay_history(w, h, rng, from_file=False):
     pos = w.pos
     obs = []
     lazy = rng.random() < 0.34          # a third of the replays ask nothing until the last batch has been set
+    # a quarter of the replays: the caller keeps ONE Cell object and re-addresses it for every write (each write a call of its own, no
+    # query in between), and one Cell object for every query - a Cell is its present address and value, not what it was when first used
+    reuse = rng.random() < 0.25
+    own, qown = None, None
+
+    def q_get(name, style):
+        nonlocal qown
+        if not reuse:
+            return xc.q_get(ex, pos[name], style)
+        s_, c_, r_ = pos[name]
+        if qown is None:
+            qown = Cell(s_ - 1, c_ - 1, r_ - 1)
+        else:
+            qown.title, qown.column, qown.row, qown.value = s_ - 1, c_ - 1, r_ - 1, None
+        try:
+            return xc.val_json('val', ex.get_cell(qown).value)
+        except repo.E2PyclException:
+            raise
+        except Exception:
+            return xc.val_json('exc', None)
     for rnd, step in enumerate(h):
-        cells = [xc.mk_cell(pos[c], v, rng.randint(0, 3)) for c, v in step['batch']]
-        ex.set_cells(cells)
+        if reuse:
+            cells = []
+            for c, v in step['batch']:
+                s_, c_, r_ = pos[c]
+                if own is None:
+                    own = Cell(s_ - 1, c_ - 1, r_ - 1, xc.pyval(v))
+                else:
+                    own.title, own.column, own.row, own.value = s_ - 1, c_ - 1, r_ - 1, xc.pyval(v)
+                ex.set_cells([own])
+                cells.append(Cell(s_ - 1, c_ - 1, r_ - 1, xc.pyval(v)))
+        else:
+            cells = [xc.mk_cell(pos[c], v, rng.randint(0, 3)) for c, v in step['batch']]
+            ex.set_cells(cells)
         # calls that change nothing in the ideal executor: an empty batch, the same batch once more
         if rng.random() < 0.3:
             ex.set_cells([])
@@ -97,9 +128,9 @@ def replay_history(w, h, rng, from_file=False):
         order = list(snap['vals'])
         rng.shuffle(order)
         for item in order:
-            got = xc.q_get(ex, pos[item['c']], rng.randint(0, 3))
+            got = q_get(item['c'], rng.randint(0, 3))
             if not same_small(got, item['v']):
-                return False, f"round {rnd + 1}: get {item['c']} = {got} but (workbook (+) overrides) gives {item['v']}", obs
+                return False, f"round {rnd + 1}: get {item['c']} = {got} but (workbook (+) overrides) gives {item['v']}" + (' (one re-addressed Cell object for the writes, one for the queries)' if reuse else ''), obs
         cs = [it['c'] for it in order[:5]]
         try:
             many = [xc.val_json('val', c.value) for c in ex.get_cells([xc.mk_cell(pos[c], None, rng.randint(0, 3)) for c in cs])]
